@@ -3,7 +3,7 @@ PROPERTY = "C17"
 LEVEL = "model_checking"
 FUNCTIONS = ["batchie.sampling.sample (MCMC and VI branches)", "batchie.core.ThetaHolder.add_theta / is_complete"]
 BOUNDS = {
-    "quick": "full runs: every b<=6, t in 1..6, n in 1..6 (solver-enumerated); one-iteration lemma: arbitrary b>=0, t>=1, n>=1 and iteration index (unbounded integers); generator selection: arbitrary seed, n_chains, chain_index (unbounded)",
+    "quick": "full runs: every b<=6, t in 1..6, n in 1..6 (solver-enumerated); one-iteration lemma: arbitrary b>=0, t>=1, n>=1 and iteration index (unbounded integers); generator selection: arbitrary seed, n_chains, chain_index (unbounded); variational request: arbitrary n>=1 (unbounded)",
     "thorough": "full runs: b<=16, t<=16, n<=16; lemmas unbounded",
 }
 ASSUMPTIONS = [
@@ -22,6 +22,7 @@ def configs(tier, seed):
             dict(name="iteration-lemma", h="lemma"),
             dict(name="stream", h="stream"),
             dict(name="vi", h="vi", nmax=m),
+            dict(name="vi request, unbounded n", h="vi_any"),
             dict(name="arguments", h="args")]
 
 
@@ -32,6 +33,8 @@ def fixtures(cfg):
         return [dict(seed=0, n_chains=2, chain_index=1), dict(seed=12345, n_chains=5, chain_index=0)]
     if cfg["h"] == "vi":
         return [dict(n=3, seed=4)]
+    if cfg["h"] == "vi_any":
+        return [dict(n=3, seed=4), dict(n=1000, seed=1)]
     return [dict()]
 
 
@@ -213,6 +216,34 @@ def h_vi(ctx, cfg):
     return n
 
 
+def h_vi_any(ctx, cfg):
+    """the request a variational model receives, for an arbitrary (unbounded) requested count: the model's answer is cut
+    short (one sample), so only the request itself is examined - exactly n, exactly once"""
+    core = ctx.mod("batchie.core")
+    sampling = ctx.mod("batchie.sampling")
+    n = ctx.int("n", 1)
+    seed = ctx.int("seed", 0)
+    calls = []
+
+    class VI(core.VIModel):
+        def reset_model(self):
+            pass
+
+        def set_rng(self, rng):
+            pass
+
+        def sample(self, num_samples):
+            calls.append(num_samples)
+            if len(calls) > 1:
+                ctx.fail("variational model asked more than once", key="variational model not asked for exactly n samples once")
+            ctx.prove(num_samples == n, "variational model asked for exactly n samples (n arbitrary)",
+                      key="variational model not asked for exactly n samples once")
+            return ["s0"]
+    sampling.sample(VI(), core.ThetaHolder(n_thetas=n), seed=seed)
+    ctx.prove(len(calls) == 1, "variational model asked exactly once", key="variational model not asked for exactly n samples once")
+    return len(calls)
+
+
 def h_args(ctx, cfg):
     core = ctx.mod("batchie.core")
     sampling = ctx.mod("batchie.sampling")
@@ -234,4 +265,4 @@ def h_args(ctx, cfg):
 
 
 def run(ctx, cfg):
-    return {"schedule": h_schedule, "lemma": h_lemma, "stream": h_stream, "vi": h_vi, "args": h_args}[cfg["h"]](ctx, cfg)
+    return {"schedule": h_schedule, "lemma": h_lemma, "stream": h_stream, "vi": h_vi, "vi_any": h_vi_any, "args": h_args}[cfg["h"]](ctx, cfg)
